@@ -63,6 +63,10 @@ the last `time_window_size` steps up to now (cut at time 0) plus 1e-10, handed t
 made for the market drawn, and only for it -/
 alias source_market_share_weights := ms_src
 
+/-- **the market maker's base price on the source**: mean of the highest accessible best bid and the lowest
+accessible best ask, `None` if either side is missing among the accessible markets -/
+alias source_market_maker_base_price := bp_src
+
 end Uninterpreted
 
 /-! ### at the reals: the source's formula is the model's -/
